@@ -548,6 +548,8 @@ func (w *enWorld) exec(op *enOp) {
 		if err == nil && o.GetID() != w.addr(op.id).Object() {
 			op.err = errors.New("head returned a foreign header")
 		}
+	case "dedup":
+		op.err = e.DeleteRedundantCopies(ctx, w.addr(op.id), op.seen)
 	case "islocked":
 		op.flag, op.err = e.IsLocked(ctx, w.addr(op.id))
 	case "mode":
